@@ -193,6 +193,18 @@ func c05Body(t *rapid.T) {
 	settle := func() {
 		quiesce.WaitStable(func() int { return tgt.NumCalls() }, 4*time.Second)
 	}
+	// F-C05-resume-overtaken-by-stale-pause (known finding): a resume issued while the incarnation stopped by the preceding pause
+	// is still shutting down (its final flush writes a checkpoint; the store rejects it; the task is paused "automatically") is
+	// overtaken by that automatic pause: the readers the resume has just started are stopped, the state written last says
+	// Running - a running task without readers, nothing is re-read until the process restarts. While the finding is listed a
+	// resume is issued only when the service is at rest (counted).
+	settledBeforeResume := 0
+	beforeResume := func() {
+		if known("F-C05-resume-overtaken-by-stale-pause") {
+			quiesce.WaitStable(func() int { return tgt.NumCalls() }, 4*time.Second)
+			settledBeforeResume++
+		}
+	}
 	recover := func() {
 		// bring the service back: restart after a crash, resume paused tasks
 		clearFaults()
@@ -211,6 +223,7 @@ func c05Body(t *rapid.T) {
 		}
 		for _, id := range taskIDs {
 			if s, _ := taskView(w, t, id); s == "Paused" {
+				beforeResume()
 				if r := w.inc.post(t, "resume", map[string]any{"task_id": id}); r.Code != 200 {
 					t.Fatalf("VERIF-TROUBLE C05: resume failed: %s\nhistory: %v", r.Raw, hist)
 				}
@@ -395,6 +408,7 @@ func c05Body(t *rapid.T) {
 				pauses++
 				hist = append(hist, "pause")
 			} else {
+				beforeResume()
 				w.inc.post(t, "resume", map[string]any{"task_id": id})
 				hist = append(hist, "resume")
 			}
@@ -499,6 +513,7 @@ func c05Body(t *rapid.T) {
 	st.ClassIf(packerMax > 1, "batched_writes")
 	st.Count("checkpoint_writes_monitored", nCheckpointWrites)
 	st.Count("rows", len(counted))
+	st.Count("resumes_issued_only_at_rest(F-C05-resume-overtaken-by-stale-pause)", settledBeforeResume)
 	st.Count("cases_excluded_by_F-C05-resume-without-checkpoint(faults start after the first checkpoint of every stream)", excludedNoCheckpoint)
 	st.NonTrivial((crashes > 0 || faults > 0 || pauses > 0) && len(counted) > 0)
 	st.Fingerprint(fmt.Sprintf("%d/%v/%s", packerMax, twoTasks, strings.Join(hist, ",")))
